@@ -89,6 +89,7 @@ bool Hist::opAddParam() {
     int gsel = rng.range(0, 9);
     if (gsel < 4 || gnames.empty()) group = (gnames.size() < 9) ? freshName("Grp", gnames) : gnames[rng.below(gnames.size())];
     else group = gnames[rng.below(gnames.size())];
+    if (prev.findGroup(group) < 0 && prev.groups.size() >= 127 && !gnames.empty()) group = gnames[rng.below(gnames.size())];   // group ids are positions: a 128th slot is beyond the format (refusal covered by C17)
     int gi = prev.findGroup(group);
     std::vector<std::string> pnames; if (gi >= 0) for (size_t q = 0; q < prev.groups[gi].params.size(); ++q) pnames.push_back(prev.groups[gi].params[q].name);
     static const char* managed[] = {"USED", "FRAMES", "LABELS", "DESCRIPTIONS", "UNITS", "SCALE", "OFFSET", "RATE", "DATA_START", "GEN_SCALE", "FORMAT", "BITS"};
